@@ -247,7 +247,7 @@ int integer_divides(const lp_int_ring_t* K, const lp_integer_t* a, const lp_inte
   assert(integer_in_ring(K, a) && integer_in_ring(K, b));
   if (K) {
     // In a prime ring, it's always divisible
-    if (K->is_prime) return integer_sgn(lp_Z, a);
+    if (K->is_prime) return mpz_sgn(a) != 0 || mpz_sgn(b) == 0;
     // Otherwise compute the gcd
     lp_integer_t gcd;
     mpz_init(&gcd);
